@@ -458,7 +458,19 @@ class Interp:
             if nm in state.env and isinstance(state.env[nm], Ref) and state.env[nm].kind == "arr":
                 v = state.env[nm]
                 state.set_arr(v, fresh_arr(state.arr(v).shape, state.arr(v).sort, nm))
-        for path in sorted(attrs | set(spec.modifies if spec else ())):
+        for path in sorted(p for p in (spec.modifies if spec else ()) if p.endswith("[*]")):
+            # every entry of a concrete-key dict (e.g. the manager's current-state dictionary)
+            parts = path[:-3].split(".")
+            obj = state.env[parts[0]]
+            for p_ in parts[1:]:
+                obj = self.getattr_value(state, obj, p_)
+            d = state.cell(obj)["__dict__"]
+            for k_, v_ in list(d.items()):
+                if v_ is not None and not isinstance(v_, (str, Opaque, Closure)):
+                    d[k_] = self.havoc_value(state, v_, str(k_), spec)
+            state.ghost.setdefault("__havoc_dicts__", set())
+            state.ghost["__havoc_dicts__"] = set(state.ghost["__havoc_dicts__"]) | {obj.oid}
+        for path in sorted(p for p in (attrs | set(spec.modifies if spec else ())) if not p.endswith("[*]")):
             parts = path.split(".")
             if parts[0] not in state.env:
                 continue
@@ -490,6 +502,8 @@ class Interp:
                     if k == "val":
                         continue   # array contents: covered through the owning variable/attribute below
                     if k in ("__list__", "__dict__"):
+                        if oid in state.ghost.get("__havoc_dicts__", ()):
+                            continue
                         if old[k] != v:
                             raise Unsupported(f"loop at line {node.lineno} mutates a container that the loop rule did not havoc")
                         continue
